@@ -271,6 +271,39 @@ def _large_cases(quick):
                 yield (width, rate, n, "query", ivs[-1:], None)
 
 
+def _check_rewritten(case):
+    """the same file NAME holds one recording, is read, is overwritten with another recording, is read again: every extraction returns the
+    samples the file holds at that moment (nothing about a source may be remembered by name)"""
+    variant, a, b = case
+    fn = os.path.join(scratch_dir(), "c17-rewritten.wav")
+    out = os.path.join(scratch_dir(), "c17-rewritten-out.wav")
+    first = (2, 8, [10 * (i + 1) for i in range(12)])
+    second = {"same-shape": (2, 8, [-7 * (i + 1) for i in range(12)]), "longer": (2, 8, [3 * (i + 1) for i in range(20)]),
+              "shorter": (2, 8, [5, 6, 7, 8, 9, 10]), "other-width-rate": (1, 16, [i - 10 for i in range(24)])}[variant]
+    viols = []
+    n = 0
+    for width, rate, smp in (first, second, first):
+        W.write_riff(fn, smp, width, rate)
+        a2, b2 = min(a, len(smp)), min(b, len(smp))
+        if a2 >= b2:
+            continue
+        n += 1
+        st, r, _ = call(audio.extractSubwav, fn, out, a2 / rate, b2 / rate)
+        if st == "exc":
+            viols.append(Viol("extract-raised:" + type(r).__name__, f"extractSubwav after the source file was rewritten ({variant}): {r!r}"))
+            break
+        info = W.read_riff(out)
+        if info["samples"] != smp[a2:b2] or (info["width"], info["rate"]) != (width, rate):
+            viols.append(Viol("extract-stale-source", f"source rewritten ({variant}), extractSubwav({a2}/{rate}, {b2}/{rate}) wrote {info['samples']} width "
+                                                      f"{info['width']} rate {info['rate']}; the file now holds {smp[a2:b2]} width {width} rate {rate}"))
+            break
+        st, dur, _ = call(audio.getDuration, fn)
+        if st == "exc" or abs(dur - len(smp) / rate) > 1e-9:
+            viols.append(Viol("duration-stale-source", f"source rewritten ({variant}): getDuration = {dur!r}, the file now lasts {len(smp) / rate}"))
+            break
+    return n, "ok", (variant,), viols
+
+
 def _check_extract(case):
     width, rate, a3, b3 = case  # positions in thirds of a sample
     fn = _wavfile(width, rate)
@@ -500,6 +533,10 @@ def parts(tier):
                   rule="recordings of 70000 samples (thorough also 5000, 140000; widths 1/2/4) x 7 interval lists on sample positions whose kept or dropped "
                        "stretches are longer than 2**16 samples (whole file, all but the edges, halves, a long tail) x keep/delete x {none, silence}; "
                        "extractSubwav and QueryWav.getSamples over the same stretches: exact samples", bounds={"samples": 70000}, chunk=1),
+        InputPart("source-file-rewritten", lambda: ((v, a, b) for v in ("same-shape", "longer", "shorter", "other-width-rate") for a in (0, 2, 5) for b in (6, 12, 18)),
+                  _check_rewritten,
+                  rule="one file name holding recording A, then B (same shape / longer / shorter / other width and rate), then A again; extractSubwav and "
+                       "getDuration after each rewrite return what the file holds now", bounds={}),
         InputPart("rejections", gen_rej, _check_rejects,
                   rule="both lists at once / times beyond the recording must raise ArgumentError", bounds={}),
         InputPart("extractSubwav", gen_extract, _check_extract,
